@@ -43,8 +43,8 @@ class C05(Property):
         "distinct by shape key + fault"
     )
     assumptions = ("after a failing connect/run only the error class and phase are compared",)
-    cases = {"quick": 120, "thorough": 6000}
-    min_nontrivial = {"quick": 40, "thorough": 1500}
+    cases = {"quick": 300, "thorough": 6000}
+    min_nontrivial = {"quick": 100, "thorough": 1500}
 
     def gen(self, rnd, i, tier):
         if i % 6 == 5:
